@@ -65,7 +65,8 @@ TRUSTED = [
 ]
 ASSUMPTIONS = [
     "wrapped functions are deterministic and importable; executor jobs of the resumed run complete exactly once",
-    "the user clears `failed` and `running` on every node of the restored graph before running again",
+    "the user clears `failed` on every node of the restored graph before running again, and `running` too where the "
+    "process that ran the graph is gone (checkpoint, interrupt)",
 ]
 
 UI_LABEL = {"A": "a", "B": "b"}
@@ -494,6 +495,11 @@ def _run(wf, sched, on_root_run=None):
     return outcome, ran
 
 
+def _clears_running(case, stage):
+    kinds = (case.get("kinds") if stage == 2 else case.get("kinds2")) or {}
+    return case["kind"] == "checkpoint" or "kbd" in kinds.values()
+
+
 def resume_from_file(case):
     """phases B-D in the current working directory: build a fresh Workflow, load the file, remove the cause, clear the
     flags, run again. Everything returned is plain data (this also runs in a fresh interpreter)."""
@@ -519,9 +525,14 @@ def resume_from_file(case):
     loaded = _snapshot(lvs2, node2)
     loaded_root = (bool(wf2.running), bool(wf2.failed))
 
+    # the procedure of the statement clears the FAILURE flags; `running` is cleared as well only where the process
+    # that ran the graph is gone (a checkpoint "as if the process had died", an interrupt)
+    clear_running = _clears_running(case, stage)
+
     def clear(c):
         c.failed = False
-        c.running = False
+        if clear_running:
+            c.running = False
         if isinstance(c, Composite):
             for ch in c:
                 clear(ch)
@@ -580,6 +591,12 @@ def run_impl(case):
     wf = _build(case)
     lvs, node, comp = _index(wf, case)
     root_lid = lvs[-1]["lid"]
+    if case.get("force_starters"):
+        # hand-made order of the starting nodes (the execution signals are still the ones of the data flow)
+        wf.automate_execution = False
+        wf.set_run_signals_to_dag_execution()
+        wf.starting_nodes = sorted(wf.starting_nodes, key=lambda n: case["force_starters"].index(int(n.label[1:]))
+                                   if int(n.label[1:]) in case["force_starters"] else len(case["force_starters"]))
     _install_faults(case.get("fails", []), case.get("kinds"))
     sched = _mk_sched(case.get("choices", []))
     exe = CtlExecutor(sched, case.get("mode", "ctl"))
@@ -854,6 +871,7 @@ def model_input(case, impl):
     lines.append("cp " + " ".join(map(str, case.get("cp", []))))
     lines.append("ckptmore " + " ".join(map(str, case.get("ckpt_more", []))))
     kinds2 = case.get("kinds2") or {}
+    lines.append(f"clear {int(_clears_running(case, 2))} {int(_clears_running(case, 3))}")
     lines.append("fails2 " + " ".join(map(str, case.get("fails2", []))))
     lines.append("kbd2 " + " ".join(str(k) for k in case.get("fails2", []) if kinds2.get(str(k)) == "kbd"))
     if case["kind"] == "checkpoint":
@@ -1200,8 +1218,23 @@ def gen_case(rng, tier, force_kind=None, nested=None):
         ref = reference(case)
         if not all(a in ref[k[1]] for k, args in ref.items() if isinstance(k, tuple) for a in args):
             case["dirty"] = []
+    case["force_starters"] = []
+    roots = [g for g in top_leaves if not any(top["slots"][str(g)])]
+    if kind == "recovery" and not is_nested and len(roots) >= 2 and rng.random() < 0.3:
+        # a starting node on the executor is still out when a LATER starting node fails locally
+        order = list(roots)
+        rng.shuffle(order)
+        case["force_starters"] = order
+        case["exec"] = sorted(set(case["exec"]) | {order[0]})
+        case["exec2"] = list(case["exec"]) if case["exec2"] else []
+        case["fails"] = [order[-1]]
+        case["exec"] = [g for g in case["exec"] if g != order[-1]]
+        case["exec2"] = [g for g in case["exec2"] if g != order[-1]]
+        case["kinds"] = {str(order[-1]): rng.choice(["exc", "value"])}
+        if order[-1] in case["fails2"]:
+            case["fails2"], case["kinds2"] = [], {}
     n = len(leaves)
-    lazy = rng.random() < 0.5  # executor jobs complete as late as possible: more in flight at a checkpoint
+    lazy = rng.random() < 0.5 or bool(case["force_starters"])  # executor jobs complete as late as possible: more in flight at a checkpoint
     case["choices"] = [0 if lazy and rng.random() < 0.85 else rng.randint(0, 3) for _ in range(4 * n)]
     case["choices2"] = [rng.randint(0, 3) for _ in range(4 * n)]
     case["choices3"] = [rng.randint(0, 3) for _ in range(4 * n)]
@@ -1256,6 +1289,9 @@ def corpus():
     yield _flat(3, [[[], [], []], [[0], [], []], [[1], [], []]], kind="recovery", fails=[1], kinds={"1": "kbd"})
     yield _flat(3, [[[], [], []], [[0], [], []], [[1], [], []]], kind="recovery", fails=[1], kinds={"1": "kbd"}, exec=[1],
                 exec2=[1])
+    # a starting node on the executor is still out when a later starting node fails locally
+    yield _flat(3, [[[], [], []], [[], [], []], [[0], [], []]], kind="recovery", fails=[1], kinds={"1": "exc"}, exec=[0],
+                exec2=[0], force_starters=[0, 1])
     # failure two macros deep; a sibling leaf completes, the outer macro's other child completes
     inner2 = {"nodes": [{"gid": 5, "kind": "term"}, {"gid": 6, "kind": "term"}],
               "slots": {"5": [["A"], ["B"], []], "6": [[5], ["B"], []]}, "ui": {"A": 12, "B": 13}, "out": 6}
@@ -1278,6 +1314,8 @@ def shrink_candidates(case):
         yield {**case, "dirty": []}
     if case.get("fails2"):
         yield {**case, "fails2": [], "kinds2": {}}
+    if case.get("force_starters"):
+        yield {**case, "force_starters": []}
     if case.get("ckpt_more"):
         yield {**case, "ckpt_more": []}
     if case.get("cp"):
